@@ -1472,12 +1472,88 @@ func aparamCoq(p *PSpec) (string, bool) {
 		coqpp.Bool(p.Required), coqpp.Bool(p.AllowEmpty), coqpp.Bool(p.CFmt == "multi"), sep, el, coqpp.OptZ(p.MinItems), coqpp.OptZ(p.MaxItems), coqpp.Bool(p.Unique)), true
 }
 
+var sepCode = map[string]int{"": 44, "csv": 44, "ssv": 32, "tsv": 9, "pipes": 124}
+
+func nitemsCoq(is *ISpec) (string, bool) {
+	var inner string
+	if is.Inner != nil {
+		x, ok := nitemsCoq(is.Inner)
+		if !ok {
+			return "", false
+		}
+		inner = x
+	} else {
+		switch {
+		case is.Type == "string" && is.Format == "":
+			inner = fmt.Sprintf("(NLeaf (PStr %s None []))", coqpp.OptZ(is.MinLen))
+		case is.Type == "integer":
+			lo, hi := intRange(is.Format)
+			inner = fmt.Sprintf("(NLeaf (PInt %s %s %s false None false))", lo, hi, coqpp.OptZ(is.Min))
+		case is.Type == "boolean":
+			inner = "(NLeaf PBool)"
+		default:
+			return "", false
+		}
+	}
+	return fmt.Sprintf("(NArr %d%%N %s %s %s %s)", sepCode[is.CFmt], coqpp.OptZ(is.MinItems), coqpp.OptZ(is.MaxItems), coqpp.Bool(is.Unique), inner), true
+}
+
+func nparamCoq(p *PSpec) (string, bool) {
+	if p.In == "path" || p.CFmt == "multi" {
+		return "", false
+	}
+	it, ok := nitemsCoq(p.Inner)
+	if !ok {
+		return "", false
+	}
+	return fmt.Sprintf("{| np_required := %s; np_allow_empty := %s; np_sep := %d%%N; np_items := %s; np_minitems := %s; np_maxitems := %s; np_unique := %s |}",
+		coqpp.Bool(p.Required), coqpp.Bool(p.AllowEmpty), sepCode[p.CFmt], it, coqpp.OptZ(p.MinItems), coqpp.OptZ(p.MaxItems), coqpp.Bool(p.Unique)), true
+}
+
+func nvalueCoq(e interface{}) string {
+	switch v := e.(type) {
+	case string:
+		return "NV (VStr " + coqpp.Str(v) + ")"
+	case float64:
+		return "NV (VInt " + coqpp.Z(int64(v)) + ")"
+	case bool:
+		return "NV (VBool " + coqpp.Bool(v) + ")"
+	case []interface{}:
+		var vs []string
+		for _, x := range v {
+			vs = append(vs, nvalueCoq(x))
+		}
+		return "NL " + coqpp.List(vs)
+	}
+	return "NL []"
+}
+
 func coqCase(sp *Spec, op *OSpec, c *tcase, res *tresult, reached bool) string {
 	switch c.expect.prop {
 	case "C03":
 		p := c.devParam
 		if p == nil || p.Default != nil {
 			return ""
+		}
+		if p.Type == "array" && p.Inner != nil {
+			np, ok := nparamCoq(p)
+			if !ok {
+				return ""
+			}
+			hk := c.devKey || p.In == "header"
+			val := "None"
+			if reached {
+				var g map[string]interface{}
+				_ = json.Unmarshal(res.Params, &g)
+				if l, ok := g[p.GoName].([]interface{}); ok {
+					var vs []string
+					for _, e := range l {
+						vs = append(vs, nvalueCoq(e))
+					}
+					val = "(Some " + coqpp.List(vs) + ")"
+				}
+			}
+			return fmt.Sprintf("CN {| na_param := %s; na_raws := %s; na_has_key := %s; na_reached := %s; na_values := %s |}", np, coqpp.StrList(c.devRaws), coqpp.Bool(hk), coqpp.Bool(reached), val)
 		}
 		if p.Type == "array" {
 			ap, ok := aparamCoq(p)
